@@ -159,6 +159,62 @@ def sat_query(conds, annos, tag):
     return None
 
 
+def correspond(ctx, cases):
+    """Lean model of the backend dispatch (Claripy.VSA.Backend) vs the real convert() on the AST claripy hands to the
+    backend (after construction-time rewriting and excavate_ite), exact abstract values."""
+    import claripy
+    from lib import vsa_check as vc
+    lines, reals, shown = [], [], []
+    stats = collections.Counter()
+    for i, (annos, tree) in enumerate(cases):
+        xs = vx.mk_vars(annos, "k%d" % i)
+        try:
+            e = vx.build(tree, xs)
+        except Exception:  # noqa
+            stats["skipped_build_error"] += 1
+            continue
+        real = vx.abstract(e)
+        if real == ("err", "ClaripyZeroDivisionError"):
+            stats["skipped_division_by_zero"] += 1
+            continue
+        try:
+            ex = claripy.excavate_ite(e)
+            toks, orders = vx.serialize(ex, {x.args[0]: j for j, x in enumerate(xs)})
+        except vx.Unmodelled as u:
+            stats["unmodelled:" + str(u).split(" ")[0]] += 1
+            continue
+        except Exception as u:  # noqa
+            stats["unmodelled:" + type(u).__name__] += 1
+            continue
+        line = "ex %s ; %s ; %s %s" % (" | ".join(vc.fmt_arg(t) for t in annos), " , ".join(" ".join(map(str, o)) for o in orders),
+                                      "B" if vx.is_bool(tree) else "V", " ".join(toks))
+        lines.append(line)
+        if real[0] == "si":
+            reals.append(vc.canon(real[1]))
+        elif real[0] == "bool":
+            reals.append("bool:" + real[1])
+        elif real[0] == "err":
+            reals.append("err:" + real[1])
+        else:
+            reals.append(str(real))
+        shown.append(vx.show(tree))
+    try:
+        outs = ctx.driver(lines, exe="driver_vsa") if lines else []
+    except RuntimeError as ex_:
+        ctx.tie_broken("driver_vsa", str(ex_)[:300])
+        return dict(stats)
+    bad = 0
+    for line, m, r, sh in zip(lines, outs, reals, shown):
+        stats["modelled"] += 1
+        ctx.cov["traces_validated_against_impl"] += 1
+        if m != r:
+            bad += 1
+            if bad == 1:
+                ctx.tie_broken("corr:convert", "%s  [%s] model=%s real=%s" % (sh, line, m, r))
+    stats["disagreements"] = bad
+    return dict(stats)
+
+
 def gen(ctx):
     rng = ctx.rng
     cases = []
@@ -186,6 +242,8 @@ def run(ctx):
                        "non-trivial = the tree has at least one operator; distinct = distinct (annotations, tree)")
     ctx.prove("ClaripyProofs.Props.C24", THEOREMS, tests=TESTS, driver_exe="driver_vsa")
     cases = gen(ctx)
+    corr_stats = correspond(ctx, cases)
+    ctx.cov["correspondence"] = corr_stats
     fails = collections.defaultdict(list)
     ops_seen = collections.Counter()
     skipped = 0
